@@ -26,8 +26,9 @@
                                   union view of every path unchanged (`ViewSame`);
                                   `remove_dir_with_lower_children_fails` (world unchanged, so no
                                   marker); `append_continues_lower_bytes`.
-  F. non-vacuity                  concrete two-leaf world, by `decide`; and the OPEN known finding
-                                  `remove_file_on_lower_dir_orphans` as a proved fact.
+  F. non-vacuity                  concrete two-leaf world, by `decide` (the removal / re-creation
+                                  checks on the same world, and the OPEN known finding
+                                  `remove_file_on_lower_dir_orphans`, are in Props/C10.lean).
 
   Hypotheses that are genuinely needed (each excludes a behaviour of the real code that is
   outside the property: reserved names): `RootOk mu` (the upper root is a directory and
@@ -45,6 +46,13 @@ set_option linter.unusedSimpArgs false
 set_option linter.unusedVariables false
 namespace Vfs.C09
 open Vfs Vfs.Overlay
+
+/-- the union view, written with `<|>`: nothing where a marker sits, otherwise the first layer
+that has the path -/
+theorem view_def (mu ml : FMap) (p : Str) :
+    view mu ml p = if mu.contains (marker p) then none else (mu.find? p <|> ml.find? p) := by
+  unfold view
+  cases mu.find? p <;> rfl
 
 /-! ### A. path computations -/
 
